@@ -1,4 +1,4 @@
-//@unit U7 props=C03,C09,C13,C14 SendChannelUnreliable (renet/src/channel/unreliable.rs)
+//@unit U7 props=C03,C09,C11,C13,C14 SendChannelUnreliable (renet/src/channel/unreliable.rs)
 #![feature(allocator_api)]
 #![allow(unused_imports, dead_code, unused_variables, unused_mut)]
 use vstd::prelude::*;
@@ -63,6 +63,7 @@ impl SendChannelUnreliable {
                 self.memory_usage_bytes <= self.max_memory_usage_bytes,
                 self.max_memory_usage_bytes == old(self).max_memory_usage_bytes,
                 self.channel_id == old(self).channel_id,
+                all_from_channel(packets@, self.channel_id),   // @C03,C11 get_packets_to_send.every_packet_labelled_with_this_channel
                 // budget: what is packed + what is pending + what is left = what was available
                 packets_payload(packets@) + bytes_total(small_messages@) + *available_bytes == avail0,
                 upkts_ok(packets@, seq0, q0),
@@ -99,6 +100,7 @@ impl SendChannelUnreliable {
                     invariant
                         self.memory_usage_bytes == bytes_total(self.unreliable_messages@),
                         packets@.len() == n0 + slice_index,
+                        all_from_channel(packets@, self.channel_id),   // @C03,C11 get_packets_to_send.every_packet_labelled_with_this_channel
                         *packet_sequence == seq0 + packets@.len(),
                         packets_payload(packets@) == p0 + (if slice_index == num_slices { message@.len() as int } else { slice_index * 1200 }),
                         upkts_ok(packets@, seq0, q0),
